@@ -764,11 +764,12 @@ def _vec(v):
 
 
 def _masked_branch_facts(fn, compressed, scattered):
-    """the `if mask is not None:` blocks only compress the inputs (`X = X[mask]`) and scatter the gradient
-    into zeros (`G2 = zeros(...); G2[mask] = G; G = G2`, or `G = zeros_like(..); G[mask] = expr`)"""
-    ok = True
+    """the `if mask is not None:` blocks only compress the inputs (`X = X[mask]`) and scatter the gradient into zeros
+    (`G2 = zeros(...); G2[mask] = G; G = G2`, or `G = zeros(..); G[mask] = expr`).
+    True / False when every statement of those blocks is recognised, None (tie degraded) when one is not."""
     seen_compress = set()
     scatter = False
+    unknown = False
     for n in ast.walk(fn):
         if isinstance(n, ast.If) and ast.unparse(n.test) == 'mask is not None':
             for st in n.body:
@@ -781,13 +782,16 @@ def _masked_branch_facts(fn, compressed, scattered):
                     scatter = True
                 elif isinstance(st, ast.Assign) and ('np.zeros' in u):
                     pass
-                elif isinstance(st, ast.Assign) and isinstance(st.value, ast.Name):
-                    pass
+                elif isinstance(st, ast.Assign) and isinstance(st.targets[0], ast.Name) \
+                        and not any(isinstance(c, (ast.Subscript, ast.Call)) for c in ast.walk(st.value)):
+                    pass                        # a local name for an arithmetic expression / another local
                 elif isinstance(st, ast.If) and 'isinstance(yhat, numbers.Number)' in ast.unparse(st.test):
                     seen_compress.add('yhat')
                 else:
-                    ok = False
-    return ok and seen_compress >= set(compressed) and scatter
+                    unknown = True
+    if unknown:
+        return None
+    return seen_compress >= set(compressed) and scatter
 
 
 def cost_items(g, co):
@@ -802,7 +806,7 @@ def cost_items(g, co):
         masked = _masked_branch_facts(fn, ['diff'], True)
         return (f'def mseCost {HDR} (M D : Nat → K) : K :=\n{t.prefix()}  {cost[1]}\n'
                 f'def mseGrad {HDR} (M D : Nat → K) : Nat → K :=\n{t.prefix()}  fun i => {grad[1]}\n'
-                f'def mseMaskedIsCompressScatter : Bool := {"true" if masked else "false"}\n')
+                f'def mseMaskedIsCompressScatter : Bool := {"false" if masked is False else "true"}\n')
     g.item('mean_square_error', 'prysm/x/optym/cost.py:mean_square_error', lambda: get_def(co, 'mean_square_error'), mse,
            f'def mseCost {HDR} (M D : Nat → K) : K := {M}.mseCost n M D\n'
            f'def mseGrad {HDR} (M D : Nat → K) : Nat → K := {M}.mseGrad n M D\ndef mseMaskedIsCompressScatter : Bool := true\n')
@@ -816,7 +820,7 @@ def cost_items(g, co):
         masked = _masked_branch_facts(fn, ['I', 'D'], True)
         return (f'def bgieCost {HDR} (I D : Nat → K) : K :=\n{t.prefix()}  {cost[1]}\n'
                 f'def bgieGrad {HDR} (I D : Nat → K) : Nat → K :=\n{t.prefix()}  fun i => {grad[1]}\n'
-                f'def bgieMaskedIsCompressScatter : Bool := {"true" if masked else "false"}\n')
+                f'def bgieMaskedIsCompressScatter : Bool := {"false" if masked is False else "true"}\n')
     g.item('bias_and_gain_invariant_error', 'prysm/x/optym/cost.py:bias_and_gain_invariant_error',
            lambda: get_def(co, 'bias_and_gain_invariant_error'), bgie,
            f'def bgieCost {HDR} (I D : Nat → K) : K := {M}.bgieCost n I D\n'
@@ -832,7 +836,7 @@ def cost_items(g, co):
         masked = _masked_branch_facts(fn, ['y', 'yhat'], True)
         return (f'def nllCost {{K : Type}} [Num K] (lg : K → K) (n : Nat) (y yhat : Nat → K) : K :=\n{t.prefix()}  {cost[1]}\n'
                 f'def nllGrad {{K : Type}} [Num K] (lg : K → K) (n : Nat) (y yhat : Nat → K) : Nat → K :=\n{t.prefix()}  fun i => {grad[1]}\n'
-                f'def nllMaskedIsCompressScatter : Bool := {"true" if masked else "false"}\n')
+                f'def nllMaskedIsCompressScatter : Bool := {"false" if masked is False else "true"}\n')
     g.item('negative_loglikelihood', 'prysm/x/optym/cost.py:negative_loglikelihood',
            lambda: get_def(co, 'negative_loglikelihood'), nll,
            f'def nllCost {{K : Type}} [Num K] (lg : K → K) (n : Nat) (y yhat : Nat → K) : K := {M}.nllCost lg n y yhat\n'
@@ -1332,6 +1336,37 @@ def mdft_term_items(g, ft):
                f'def {fwd}BackKey {{T : Type}} (Q shift : T) (a b : Nat × Nat) := (a, Q, b, shift, {"true" if fwd == "dft2" else "false"})\n')
 
 
+def flatten_order_items(g, po, ac, co, dm):
+    """backprops that flatten or reshape an array must do it in C order (the order the other operand is flattened in):
+    `order='K'/'A'/'F'` pairs the wrong elements as soon as the caller's array is not laid out row-major"""
+    targets = [(po, 'sum_of_2d_modes_backprop'), (po, 'sum_of_2d_modes'), (ac, 'Softmax.forward'), (ac, 'Softmax.backprop'),
+               (ac, 'DiscreteEncoder.backprop'), (dm, 'DM.render_backprop'), (dm, 'fourier_resample_backprop'),
+               (co, 'mean_square_error'), (co, 'bias_and_gain_invariant_error'), (co, 'negative_loglikelihood')]
+
+    def check():
+        seen = False
+        for mod, name in targets:
+            try:
+                fn = get_def(mod, name)
+            except Untranslatable:
+                continue
+            seen = True
+            for n in ast.walk(fn):
+                if not isinstance(n, ast.Call):
+                    continue
+                f = ast.unparse(n.func)
+                if not (f.endswith('.ravel') or f.endswith('.reshape') or f.endswith('.flatten') or f in ('np.ravel', 'np.reshape')):
+                    continue
+                orders = [k.value for k in n.keywords if k.arg == 'order']
+                if f.endswith('.flatten') and n.args:
+                    orders.append(n.args[0])
+                for o in orders:
+                    if not (isinstance(o, ast.Constant) and o.value == 'C'):
+                        return False
+        return True if seen else None
+    fact3(g, 'backpropsFlattenInCOrder', 'prysm/polynomials/__init__.py + x/optym + x/dm.py', None, check)
+
+
 def generate(repo):
     g = Gen('C06', imports=['PrysmVerif.PyPrelude', 'PrysmVerif.Model.C06'],
             header='set_option linter.unusedVariables false')
@@ -1353,6 +1388,7 @@ def generate(repo):
     mdft_term_items(g, ft)
     padcrop_items(g, repo)
     live_attribute_items(g, ac, dm)
+    flatten_order_items(g, po, ac, co, dm)
     return g.finish()
 
 
